@@ -307,8 +307,12 @@ def check_case(case, ctx):
         if got_r != ref_r:
             ctx.violation('one-logit-row-per-character', f'{K}/logit-row-provenance',
                           f'{desc}: rows come from (part,index) {got_r}, expected {ref_r}')
-        if any((a != b).any() for a, b in zip(keep, logits)):
-            ctx.violation('text-kept', f'{K}/modifies-input-logits', desc)
+        # the engine keeps its per-part logits: merging the same objects again gives the same result
+        text2, rows2 = merge_transcriptions_and_logits(list(parts), logits)
+        ctx.executed()
+        if text2 != text or np.asarray(rows2).shape != np.asarray(rows if len(text) else rows2).shape and len(text):
+            ctx.violation('text-kept', f'{K}/second-merge-of-the-same-parts-differs', f'{desc}; merging the same part objects again gives {text2!r} '
+                          f'(logits modified by the first call: {any((a != b).any() for a, b in zip(keep, logits))})')
         if len(parts) == 2:
             o = overlaps[0]
             if not text.startswith(parts[0][:len(parts[0]) - (o + 1) // 2]) or not text.endswith(parts[1][o // 2:]):
